@@ -4,8 +4,14 @@ package main
 
 import (
 	"errors"
+	"fmt"
 	"sort"
 	"strings"
+
+	"github.com/verily-src/fhirpath-go/fhirpath"
+	"github.com/verily-src/fhirpath-go/fhirpath/evalopts"
+	"github.com/verily-src/fhirpath-go/internal/fhir"
+	"github.com/verily-src/fhirpath-go/internal/resource"
 
 	"github.com/verily-src/fhirpath-go/fhirpath/internal/expr"
 	"github.com/verily-src/fhirpath-go/fhirpath/system"
@@ -41,7 +47,7 @@ func runC02SchemaSweep(c *Ctx) {
 			// quick tier: every element whose name has a digit or two adjacent capitals (what a case conversion may
 			// not survive), the others on a rotating third of the types
 			name := fd.JSONName()
-			odd := strings.ContainsAny(name, "0123456789") || hasAdjacentCapitals(name)
+			odd := strings.ContainsAny(name, "0123456789") || hasAdjacentCapitals(name) || fpKeywords[name] || bareKeywordNames[name]
 			if !c.thorough && !odd && (ti+int(c.seed))%3 != 0 {
 				continue
 			}
@@ -64,12 +70,60 @@ func runC02SchemaSweep(c *Ctx) {
 			in := string(d.FullName()) + " . " + name
 			c.Law(!pan, "C02/panic", "navigation never crashes", in, pmsg)
 			c.Law(pan || !(err != nil && errors.Is(err, expr.ErrInvalidField)), "C02/element-unreachable", "every element of every R4 type is reached by its FHIR name", in, "ErrInvalidField")
+			// the same step written in an expression: the name as the grammar allows it (keywords that are identifiers bare,
+			// other keywords in back-ticks)
+			spellings := []string{fpName(name)}
+			if bareKeywordNames[name] {
+				spellings = append(spellings, name)
+			}
+			for _, sp := range spellings {
+				src := "%x." + sp
+				o := safeEval(func() (system.Collection, error) {
+					e, err := fhirpath.Compile(src)
+					if err != nil {
+						return nil, fmt.Errorf("compile: %w", err)
+					}
+					return e.Evaluate(nil, evalopts.EnvVariable("x", msg))
+				})
+				bad := o.Panicked || (o.Err != nil && (errors.Is(o.Err, expr.ErrInvalidField) || strings.HasPrefix(o.Err.Error(), "compile:")))
+				c.Law(!bad, "C02/element-unreachable", "every element of every R4 type is reached by its FHIR name", in+" written "+src, canonOutcome(o, nil))
+			}
 		}
 	}
 	c.Observe("schema sweep: message-valued elements stepped into", true)
 	c.Count("schema-sweep-steps")
 	_ = n
 	_ = proto.Equal
+}
+
+// keywords of the grammar that are also identifiers (identifier: IDENTIFIER | DELIMITEDIDENTIFIER | 'as' | 'contains' | 'in' | 'is')
+var bareKeywordNames = map[string]bool{"as": true, "contains": true, "in": true, "is": true}
+
+// runC02ForeignRoots: a root type name selects resources of exactly that type — for every pair of resource type names
+// of which one is part of the other (Person / RelatedPerson, Group / RequestGroup, Medication / MedicationRequest ...)
+// and a rotating sample of the other pairs.
+func runC02ForeignRoots(c *Ctx) {
+	types := resourceNames()
+	for ti, tn := range types {
+		res := resource.New(resource.Type(tn), resource.WithID("x1"))
+		if res == nil {
+			continue
+		}
+		for ri, rn := range types {
+			related := strings.Contains(strings.ToLower(tn), strings.ToLower(rn)) || strings.Contains(strings.ToLower(rn), strings.ToLower(tn))
+			if !related && !c.thorough && (ti*31+ri+int(c.seed))%40 != 0 {
+				continue
+			}
+			src := rn + ".id"
+			o := compileEval(src, []fhir.Resource{res})
+			want := 0
+			if rn == tn {
+				want = 1
+			}
+			c.Observe("root "+rn+" on a "+tn, true)
+			c.Law(!o.Panicked && o.Err == nil && len(o.Coll) == want, "C02/foreign-root", "a root type name that does not match the resource yields empty", tn+" :: "+src, canonOutcome(o, nil))
+		}
+	}
 }
 
 func hasAdjacentCapitals(s string) bool {
